@@ -1,6 +1,6 @@
 SPECIFICATION Spec
 CONSTANTS
-  Alphabet <- Three
+  Alphabet <- Two
   NRegs = 2
   NCur = 1
   MaxLen = 3
